@@ -152,6 +152,9 @@ impl Prop for C09 {
     fn id(&self) -> &'static str {
         "C09"
     }
+    fn fuzz_target(&self) -> Option<&'static str> {
+        Some("tape")
+    }
     fn rule(&self) -> String {
         "generated transition systems (bit-vector and array states, constant/expression/absent init over earlier states, constant states, inputs, constraints, 1-3 bads, outputs incl. labels that alias states or inputs, debug names on intermediate nodes; every state has init or next; single-token names) plus every btor2 file shipped under inputs/: serialize -> parse_str into the same Context; same number and types of inputs/states/outputs/bads/constraints; each init/next/output/bad/constraint is the identical reference or reference-evaluator-equal with symbols paired by position (exhaustive <= 14 symbol bits, else 64 samples; shipped files 4 samples); for parsed systems with explicit pairwise distinct input/state/output names a further write/read cycle must keep them. Systems the writer rejects (constant array outside init, undeclared symbol) are skipped and counted. Non-trivial: system with an array state, or a label aliasing a state/input, or literals of >= 3 of the shapes zero/one/ones/other; distinct by hash of the written text.".into()
     }
